@@ -40,3 +40,24 @@ def consolidate (reps : List RepD) : Option (Nat × String) :=
 def wrapDur (loop : Nat) (r : RepD) : Nat := loop * r.ts / 1000
 
 end Load
+
+/-! ## The segment table of a `$Number$` representation (`loadRep`, the loop "until we cannot find more files") -/
+namespace Load
+
+/-- what `readMP4Segment` reads from the files, in number order: `(tfdt, end of the last fragment)`; `loadRep` overwrites
+the end time of every segment but the last with the start time of the next one -/
+def loadByNumber : List (Nat × Nat) → List (Nat × Nat)
+  | [] => []
+  | [x] => [x]
+  | (s, _) :: (s', e') :: rest => (s, s') :: loadByNumber ((s', e') :: rest)
+
+/-- thumbnails (`readThumbSegment`): `n` tiles of the template's duration -/
+def loadThumbs (n dur : Nat) : List (Nat × Nat) := (List.range n).map fun k => (k * dur, k * dur + dur)
+
+/-- each segment starts where the previous one ends -/
+def ContigTable : List (Nat × Nat) → Prop
+  | [] => True
+  | [_] => True
+  | a :: b :: rest => a.2 = b.1 ∧ ContigTable (b :: rest)
+
+end Load
